@@ -164,8 +164,13 @@ def run(f, fixture, rep, cfg, tier):
                       "the removal is also gated by %s" % sorted(bad), hb.span)
 
     # ---- R4 ----------------------------------------------------------------------------------------
-    aud = Auditor(f, rep, "C12", "R4", {})
-    for b in cone.values():
+    # extract() drives the payload reader and the header accessors on the package's (hostile) bytes: the audit covers the whole
+    # call-graph cone, with the reviewed reasons C04 keeps for the read-side sites
+    from c04 import ALLOW as READ_ALLOW
+    full_cone = f.cone([ex])
+    rep.count("extract_full_cone_bodies", len(full_cone))
+    aud = Auditor(f, rep, "C12", "R4", dict(READ_ALLOW))
+    for b in full_cone.values():
         if not b.derived:
             aud.audit_body(b)
     aud.finish()
